@@ -1,6 +1,7 @@
 package main
 
 import (
+	"os"
 	"fmt"
 	"go/types"
 	"strings"
@@ -65,7 +66,7 @@ func checkC18(c *Ctx) {
 	c.Explain = "C18 decided by abstract interpretation of parse(build(v)) for symbolic values: the Roland-style builder is run with symbolic ids, address, request size and a payload of symbolic length >= 1; the parser is run on the abstract result with the checksum function treated as an uninterpreted function of the fields it covers, so parse succeeds on all partitions iff both sides apply the same function to the same fields at the same positions, and the returned value must equal the built one; likewise for machine-control locate and plain commands. Not decided: the checksum arithmetic itself (sum = 0 mod 128, corruption detection)."
 	c.Trusted = []string{"go/ssa", "E-abs incl. bytes.Buffer summary", "checksum treated as uninterpreted function (its arithmetic is not analysed)"}
 	c.Rule("C18.1", "Roland-style frame: Parse(SysEx(v)) succeeds on every partition and returns v (ids, address, payload of any length >= 1 / request size); builder layout F0 id dev model 11|12 addr x3 (size x3 | data) checksum F7", 4)
-	c.Rule("C18.2", "checksum coverage: builder and parser apply the same checksum function to the same fields (address + payload/size)", 2)
+	c.Rule("C18.2", "checksum coverage: builder and parser apply the same checksum function to the same fields (address + payload/size); every accepting path of the parser has compared the checksum byte with it", 4)
 	c.Rule("C18.3", "machine control: locate and plain commands parse back to the value they were built from (device ids 1..127, commands below 0x40)", 2)
 
 	// ---------------- Roland frame
@@ -159,6 +160,7 @@ func checkC18(c *Ctx) {
 					continue
 				}
 				bkey := keys[len(keys)-1]
+				pristine := o.St.Clone() // the parse run below refines o.St in place
 				for _, po := range ex.Call(o.St, parse, []Val{msg}, nil) {
 					n++
 					if po.Panic || len(problemEvents(po.St.Events)) > 0 {
@@ -190,6 +192,50 @@ func checkC18(c *Ctx) {
 				}
 				pk := keys[len(keys)-1]
 				c.Check(pk == bkey, "C18.2", fmt.Sprintf("checksum coverage (request=%v)", req), p.Pos(parse.Pos()), "same function over "+bkey, "builder covers "+bkey+", parser covers "+pk)
+				// the comparison is unconditional: with an arbitrary byte x in the checksum position, every accepting path of
+				// the parser has established x == checksum(fields) (so a wrong checksum byte is rejected whatever the ids are)
+				{
+					x := ex.byteSym("xsum")
+					cst := pristine
+					csegs := append([]Seg{}, segs[:len(segs)-1]...)
+					last := segs[len(segs)-1]
+					okShape := last.Run == nil && len(last.Elems) >= 2
+					if okShape {
+						ne := append([]Val{}, last.Elems...)
+						ne[len(ne)-2] = x
+						csegs = append(csegs, Seg{Elems: ne})
+						cid := ex.newObj(cst, &ArrayV{Elem: types.Typ[types.Uint8], Segs: normSegs(csegs)}, nil)
+						cmsg := &SliceV{Obj: cid, Off: mkConst(0, 64, true), Len: msg.Len, Cap: msg.Len}
+						okC, whyC, nAcc := true, "", 0
+						for _, po := range ex.Call(cst, parse, []Val{cmsg}, nil) {
+							if os.Getenv("ABSDEBUG") != "" {
+								fmt.Fprintf(os.Stderr, "C18 corrupt outcome panic=%v ret=%v witness=%s\n", po.Panic, po.Ret, outcomeWitness(po))
+							}
+							if po.Panic {
+								continue
+							}
+							ev, _ := po.Ret[1].(*IfaceV)
+							if ev == nil || !ev.Nil {
+								continue // rejected
+							}
+							nAcc++
+							want := mkSym(ex.syms.Get(keys[len(keys)-1], 8, false))
+							if os.Getenv("ABSDEBUG") != "" {
+								fmt.Fprintf(os.Stderr, "C18 corrupt: x=%s want=%s facts=%d neq=%d witness=%s\n", x, want, len(po.St.facts), len(po.St.neq), outcomeWitness(po))
+								for _, f := range po.St.facts {
+									fmt.Fprintf(os.Stderr, "   fact %s <= 0\n", f)
+								}
+							}
+							if eq, k := po.St.Decide("==", x, want); !(k && eq) && !po.St.sameInt(x, want) {
+								okC = false
+								whyC = "the parser can accept a message whose checksum byte is arbitrary (the comparison with the computed checksum is skipped on some path): " + outcomeWitness(po)
+							}
+						}
+						c.Check(okC && nAcc > 0, "C18.2", fmt.Sprintf("checksum compared on every accepting path (request=%v)", req), p.Pos(parse.Pos()), fmt.Sprintf("%d accepting partition(s), each implies checksum byte = checksum(fields)", nAcc), whyC)
+					} else {
+						c.Unk("C18.2", fmt.Sprintf("checksum compared on every accepting path (request=%v)", req), p.Pos(parse.Pos()), "builder output does not end in [checksum F7]")
+					}
+				}
 			}
 			c.Check(ok && n > 0, "C18.1", fmt.Sprintf("Parse(SysEx(v)) = v (request=%v)", req), p.Pos(parse.Pos()), fmt.Sprintf("%d partitions, symbolic ids/address/payload of any length >= 1", n), why)
 			c.Check(ok && n > 0, "C18.1", fmt.Sprintf("builder layout (request=%v)", req), p.Pos(build.Pos()), "F0 id dev model cmd addr (size|data) checksum F7", why)
